@@ -547,6 +547,7 @@ type stats struct {
 	metaUsed bool
 	sequel   bool
 	tail     bool
+	chain    bool
 }
 
 func check(c Case) (st stats, err error) {
@@ -618,7 +619,100 @@ func check(c Case) (st stats, err error) {
 			return st, err
 		}
 	}
+	if err := checkChain(i, c, &st); err != nil {
+		return st, err
+	}
 	return st, nil
+}
+
+// checkChain: two calls in one query, a list the first call computed handed on (as the term the call left behind, not a
+// copy) as a list input of the second: the second call's answers are the relation's for that value.
+func checkChain(i *sut.I, c Case, st *stats) error {
+	w1, ok := reference(c.Pred, c.Args)
+	if !ok || len(w1) != 1 {
+		return nil
+	}
+	out, in := -1, -1
+	seen := map[int64]int{}
+	for _, a := range c.Args {
+		if isVar(a) {
+			seen[a.I]++
+		}
+	}
+	for k, a := range c.Args {
+		if isVar(a) {
+			if es, proper := properList(w1[0][k]); out < 0 && seen[a.I] == 1 && proper && len(es) > 0 && len(w1[0][k].Vars(nil)) == 0 {
+				out = k
+			}
+		} else if _, proper := properList(a); in < 0 && proper && len(a.Vars(nil)) == 0 {
+			in = k
+		}
+	}
+	if out < 0 || in < 0 {
+		return nil
+	}
+	second := make([]*rt.Term, len(c.Args))
+	for k, a := range c.Args {
+		switch {
+		case k == in:
+			second[k] = w1[0][out]
+		case isVar(a):
+			second[k] = rt.V(900 + a.I)
+		default:
+			second[k] = a
+		}
+	}
+	w2, ok2, errOK := reference3(c.Pred, second)
+	if !ok2 || errOK || len(w2) > maxAnswers-1 {
+		return nil
+	}
+	names := map[int64]string{}
+	var b strings.Builder
+	var args []interface{}
+	var outs []string
+	for pass, call := range [][]*rt.Term{c.Args, second} {
+		var as []string
+		for k, x := range call {
+			var ab strings.Builder
+			switch {
+			case pass == 1 && k == in:
+				fmt.Fprintf(&ab, "X%d", c.Args[out].I)
+			case isVar(x):
+				fmt.Fprintf(&ab, "X%d", x.I)
+				if pass == 1 {
+					outs = append(outs, ab.String())
+				}
+			default:
+				render(x, names, &args, &ab)
+			}
+			as = append(as, ab.String())
+		}
+		b.WriteString("'" + c.Pred + "'(" + strings.Join(as, ",") + "), ")
+	}
+	b.WriteString("Rs = [" + strings.Join(outs, ",") + "].")
+	res := i.Query(b.String(), []string{"Rs"}, maxAnswers, 3_000_000, args...)
+	if res.Err != nil {
+		return fmt.Errorf("%s then %s on the list the first call left in argument %d (query %s) raised %s; the relation has %d answers", rt.C(c.Pred, c.Args...), rt.C(c.Pred, second...), out+1, b.String(), res.Err, len(w2))
+	}
+	var got, want [][]*rt.Term
+	for _, a := range res.Answers {
+		es, _ := a[0].Unlist()
+		got = append(got, es)
+	}
+	for _, w := range w2 {
+		var t []*rt.Term
+		for k, x := range second {
+			if isVar(x) {
+				t = append(t, w[k])
+			}
+		}
+		want = append(want, t)
+	}
+	if d := diffMS(multiset(want), multiset(got), "relation", "real"); d != "" {
+		return fmt.Errorf("%s then %s on the list the first call left in argument %d (query %s): %s", rt.C(c.Pred, c.Args...), rt.C(c.Pred, second...), out+1, b.String(), d)
+	}
+	st.chain = true
+	return nil
 }
 
 // checkTail: the same call written into the query text, its list arguments completed by bindings made before it.
@@ -1161,7 +1255,7 @@ func atomEnumeration(r *h.R, t *testing.T) {
 func TestProp(t *testing.T) {
 	r := h.Start(t, "C16")
 	defer r.Finish(t)
-	r.Rule("for each of the 17 listed predicates a rapid generator draws a tuple of its relation (atoms over {a, b, é, 日, 😀} up to length 6, lists up to length 5 of atoms/integers/compounds, integers near 0 and within 2 of the 64-bit limits; in 20% a one-argument near miss) and an instantiation mask (each argument either the ground value or unbound); calls outside the predicate's modes are not asserted. Oracles: (1) a reference enumerator per predicate written from its definition over rune slices and Go slices - the multiset of answers (full argument tuples after the call) must equal the multiset of matching tuples of the relation, no error, no more than 120 answers; (2) the metamorphic law: for a second call with further arguments instantiated, its answers must be exactly the answers of the general call that match. In thorough mode additionally all atoms up to length 3 over a 4-character alphabet x all splits/offsets x all masks for atom_length, atom_chars, atom_codes, sub_atom, atom_concat. Non-ASCII atoms and all numbers are passed as '?' arguments (double_quotes = atom), answers are read structurally. Non-trivial: a multi-byte character, an integer within 2 of a 64-bit limit, or >= 2 unbound arguments. Distinct by case.",
+	r.Rule("for each of the 17 listed predicates a rapid generator draws a tuple of its relation (atoms over {a, b, é, 日, 😀} up to length 6, lists up to length 5 of atoms/integers/compounds, integers near 0 and within 2 of the 64-bit limits; in 20% a one-argument near miss) and an instantiation mask (each argument either the ground value or unbound); calls outside the predicate's modes are not asserted. Oracles: (1) a reference enumerator per predicate written from its definition over rune slices and Go slices - the multiset of answers (full argument tuples after the call) must equal the multiset of matching tuples of the relation, no error, no more than 120 answers; (2) the metamorphic law: for a second call with further arguments instantiated, its answers must be exactly the answers of the general call that match. (3) two calls in one query: sharing their equal list arguments as one term (the first call's tuple is still the relation's after the second), and a second call taking as a list input the very list the first call computed (its answers are the relation's for that value); (4) the call written into the query text with list arguments completed by earlier bindings. In thorough mode additionally all atoms up to length 3 over a 4-character alphabet x all splits/offsets x all masks for atom_length, atom_chars, atom_codes, sub_atom, atom_concat. Non-ASCII atoms and all numbers are passed as '?' arguments (double_quotes = atom), answers are read structurally. Non-trivial: a multi-byte character, an integer within 2 of a 64-bit limit, or >= 2 unbound arguments. Distinct by case.",
 		"reference enumerators in props/c16; answer order is not part of the property (multisets)")
 	r.Regress(t)
 	if r.Failed() {
@@ -1188,6 +1282,9 @@ func TestProp(t *testing.T) {
 		}
 		if st.tail {
 			r.Label("list_arguments_completed_by_earlier_bindings")
+		}
+		if st.chain {
+			r.Label("second_call_on_the_list_the_first_call_computed")
 		}
 		if st.asserted && st.nAnswers >= 2 {
 			r.Label("answers>=2")
